@@ -107,6 +107,25 @@ Print Assumptions C17_breadth_first_search_stays_in_bounds.
 Example C17_bfs_chk_detects_bad_column : bfs_chk 2 [0; 1; 2] [1; 2] 0 [0; 0] = None.
 Proof. vm_compute. reflexivity. Qed.
 
+(* maximal_independent_set_serial, unbounded: on every structurally valid CSR graph (any size, symmetric or not) and every
+   x of n entries, whatever the three marker values, the bounds-checked twin never reports an access outside Ap, Aj or x and
+   returns the unchecked model's result (whose functional correctness is C18_mis_serial_independent_maximal) *)
+Require Import PV.Model.MisChk PV.Proofs.MisSafe PV.Proofs.RsSafe.
+Theorem C17_mis_serial_stays_in_bounds : forall (N : nat) (Ap Aj : list Z), valid_csr N Ap Aj ->
+  forall active c f x, length x = N ->
+  mis_serial_chk (Z.of_nat N) Ap Aj active c f x = Some (mis_serial (Z.of_nat N) Ap Aj active c f x).
+Proof. exact (fun N Ap Aj V active c f x L => mis_chk_safe N Ap Aj V active c f x L). Qed.
+Print Assumptions C17_mis_serial_stays_in_bounds.
+Example C17_mis_chk_detects_bad_column : mis_serial_chk 2 [0; 1; 2] [2; 0] (-1) 1 0 [-1; -1] = None.
+Proof. vm_compute. reflexivity. Qed.
+Example C17_mis_chk_valid_example :
+  valid_csr 3 [0; 1; 3; 4] [1; 0; 2; 1] /\ mis_serial_chk 3 [0; 1; 3; 4] [1; 0; 2; 1] (-1) 1 0 [-1; -1; -1] = Some ([1; 0; 1], 2).
+Proof.
+  split; [|vm_compute; reflexivity]. split; [cbn; lia|]. split.
+  - intros i Hi. assert (i = 0 \/ i = 1 \/ i = 2) as [-> | [-> | ->]] by lia; unfold get; simpl; lia.
+  - intros k Hk. cbn [length] in Hk. assert (k = 0 \/ k = 1 \/ k = 2 \/ k = 3) as [-> | [-> | [-> | ->]]] by lia; unfold get; simpl; lia.
+Qed.
+
 (* rs_cf_splitting, UNBOUNDED (the "//invalid write!" site; bucket arrays of max(2*max lambda, n+1) entries and the
    guard lambda >= n-1): on every pair of structurally valid CSR patterns S, T with column indices below n (they
    need not be transposes of each other, nor symmetric) and every nonnegative influence vector, for any number of
